@@ -75,6 +75,10 @@ func programBody(name string, b *drv.Block) func() {
 		// the reader marks tasks answered itself
 		var w1, w2 *drv.Wait
 		r.AfterStart = func() {
+			// a waiter that gives up at once (its context is cancelled while the instance runs),
+			// then two that stay: completion waits issued from several goroutines
+			w0 := r.WaitComplete(nil)
+			go w0.Cancel()
 			w1 = r.WaitComplete(nil)
 			w2 = r.WaitComplete(nil)
 		}
